@@ -17,7 +17,15 @@ package main
 //             d<obj>.<name>          delete
 //             n<inst>.<cls>          isinstance(inst, cls)
 //             u<cls>.<cls>           Type.IsSubtype (Go API)
-// output V:  K1=K1.O;K2=K2.K1.O|r1;r2;...     (a rejected class: `K3=E:TypeError`, then nothing else)
+//             N<inst>.<a>,<a>..      isinstance(inst, (a, a, ..))   (`-` = the empty tuple; a = K<d> | i<d>)
+//             U<inst>.<cls>          inst.IsSubtype(cls) (Go API: the receiver has no MRO, the Base chain is walked)
+//   members : the one-letter names G / S / I stand for the hooks __getattr__ / __setattr__ / __init__; kind f gives the
+//             standard body (__getattr__ returns ('hook', tag, self, name); __setattr__ appends (tag, self, name, value) to
+//             the module's LOG and does not store; __init__ does `self.a = tag`), kind v a non-callable string
+//   family `api`: the classes are built by calling py.TypeNew(py.TypeType, (name, bases, dict)) directly (no class
+//             statement, no __build_class__, no Type.M__call__/TypeInit), instances by py.Call, reads / writes / deletes by
+//             py.GetAttrString / py.SetAttrString / py.DeleteAttrString
+// output V:  K1=K1.O;K2=K2.K1.O|r1;r2;...|log     (a rejected class: `K3=E:TypeError|`, then nothing else)
 // output R:  Go representation of every read result
 
 import (
@@ -40,6 +48,17 @@ func (e *c16Env) run(src string) error {
 	}
 	_, err = e.ctx.RunCode(code, e.mod.Globals, e.mod.Globals, nil)
 	return err
+}
+
+func (e *c16Env) obj(name string) py.Object {
+	if name == "object" {
+		return py.ObjectType
+	}
+	o, ok := e.mod.Globals[name]
+	if !ok {
+		panic("no object " + name)
+	}
+	return o
 }
 
 func c16ObjName(s string) string {
@@ -70,8 +89,12 @@ func c16ClassSrc(k int, decl string) string {
 		return b.String()
 	}
 	for i := 0; i+1 < len(parts[1]); i += 2 {
-		name, kind := string(parts[1][i]), parts[1][i+1]
+		name, kind := c16FullName(string(parts[1][i])), parts[1][i+1]
 		tag := fmt.Sprintf("K%d.%s", k, name)
+		if kind == 'f' && strings.HasPrefix(name, "__") {
+			b.WriteString(c16HookSrc("    ", name, name, tag))
+			continue
+		}
 		switch kind {
 		case 'v':
 			fmt.Fprintf(&b, "    %s = '%s'\n", name, tag)
@@ -86,6 +109,117 @@ func c16ClassSrc(k int, decl string) string {
 		}
 	}
 	return b.String()
+}
+
+func c16FullName(n string) string {
+	switch n {
+	case "G":
+		return "__getattr__"
+	case "S":
+		return "__setattr__"
+	case "I":
+		return "__init__"
+	}
+	return n
+}
+
+// standard body of a hook function
+func c16HookSrc(indent, defName, hook, tag string) string {
+	switch hook {
+	case "__getattr__":
+		return fmt.Sprintf("%sdef %s(self, name): return ('hook', '%s', self, name)\n", indent, defName, tag)
+	case "__setattr__":
+		return fmt.Sprintf("%sdef %s(self, name, v): LOG.append(('%s', self, name, v))\n", indent, defName, tag)
+	case "__init__":
+		return fmt.Sprintf("%sdef %s(self): self.a = '%s'\n", indent, defName, tag)
+	}
+	panic("bad hook " + hook)
+}
+
+// build class K<k> by calling py.TypeNew directly
+func (e *c16Env) apiClass(k int, decl string) error {
+	parts := strings.SplitN(decl, "/", 2)
+	bases := py.Tuple{}
+	if parts[0] != "-" {
+		for _, d := range parts[0] {
+			if d == '0' {
+				bases = append(bases, py.ObjectType)
+			} else {
+				bases = append(bases, e.mod.Globals["K"+string(d)])
+			}
+		}
+	}
+	dict := py.StringDict{"__module__": py.String("c16case"), "__qualname__": py.String(fmt.Sprintf("K%d", k))}
+	if parts[1] != "-" {
+		for i := 0; i+1 < len(parts[1]); i += 2 {
+			name, kind := c16FullName(string(parts[1][i])), parts[1][i+1]
+			tag := fmt.Sprintf("K%d.%s", k, name)
+			fn := fmt.Sprintf("_f%d_%d", k, i)
+			var src string
+			switch {
+			case kind == 'v':
+				src = fmt.Sprintf("%s = '%s'\n", fn, tag)
+			case kind == 'f' && strings.HasPrefix(name, "__"):
+				src = c16HookSrc("", fn, name, tag)
+			case kind == 'f':
+				src = fmt.Sprintf("def %s(*a): return ('%s',) + a\n", fn, tag)
+			case kind == 'c':
+				src = fmt.Sprintf("def %s(*a): return ('%s',) + a\n%s = classmethod(%s)\n", fn, tag, fn, fn)
+			case kind == 's':
+				src = fmt.Sprintf("def %s(*a): return ('%s',) + a\n%s = staticmethod(%s)\n", fn, tag, fn, fn)
+			default:
+				panic("bad member kind")
+			}
+			if err := e.run(src); err != nil {
+				panic(err)
+			}
+			dict[name] = e.mod.Globals[fn]
+			delete(e.mod.Globals, fn)
+		}
+	}
+	t, err := py.TypeNew(py.TypeType, py.Tuple{py.String(fmt.Sprintf("K%d", k)), bases, dict}, nil)
+	if err != nil {
+		return err
+	}
+	e.mod.Globals[fmt.Sprintf("K%d", k)] = t
+	return nil
+}
+
+// a value written by an operation, as a Go object
+func (e *c16Env) apiVal(v string) py.Object {
+	delete(e.mod.Globals, "_w")
+	if err := e.run("_w = " + c16Val(v)); err != nil {
+		panic(err)
+	}
+	return e.mod.Globals["_w"]
+}
+
+func (e *c16Env) valName(o py.Object) string {
+	switch x := o.(type) {
+	case py.String:
+		return string(x)
+	case *py.Function:
+		return x.Name
+	case *py.ClassMethod:
+		return "cm:" + x.Callable.(*py.Function).Name
+	case *py.StaticMethod:
+		return "sm:" + x.Callable.(*py.Function).Name
+	}
+	return "?" + o.Type().Name
+}
+
+// the module's LOG of hook calls
+func (e *c16Env) logStr() string {
+	l, ok := e.mod.Globals["LOG"].(*py.List)
+	if !ok {
+		panic("no LOG")
+	}
+	out := []string{}
+	for _, it := range l.Items {
+		t := it.(py.Tuple)
+		out = append(out, fmt.Sprintf("%s(%s %s %s)", string(t[0].(py.String)), e.nameOf(t[1]), string(t[2].(py.String)), e.valName(t[3])))
+	}
+	return strings.Join(out, ";")
 }
 
 // name of a Python object of the case (class, instance, None) by identity
@@ -116,6 +250,8 @@ func c16Repr(o py.Object) string {
 		return "sm"
 	case *py.ClassMethod:
 		return "cm"
+	case py.Tuple:
+		return "tup"
 	}
 	return o.Type().Name
 }
@@ -124,6 +260,9 @@ func c16Repr(o py.Object) string {
 func (e *c16Env) show(o py.Object) string {
 	if s, ok := o.(py.String); ok {
 		return "v:" + string(s)
+	}
+	if t, ok := o.(py.Tuple); ok && len(t) == 4 && t[0] == py.Object(py.String("hook")) {
+		return fmt.Sprintf("hook:%s(%s %s)", string(t[1].(py.String)), e.nameOf(t[2]), string(t[3].(py.String)))
 	}
 	res, err := py.Call(o, nil, nil)
 	if err != nil {
@@ -170,19 +309,26 @@ func init() {
 			if len(f) != 4 {
 				panic("bad case " + line)
 			}
+			api := f[0] == "api"
 			f = f[1:] // f[0] names the generator family
 			mod, err := ctx.Store().NewModule(ctx, &py.ModuleImpl{Info: py.ModuleInfo{Name: "c16case"}})
 			if err != nil {
 				panic(err)
 			}
 			e := &c16Env{ctx: ctx, mod: mod}
-			if err := e.run("def g0(*a): return ('g0',) + a\ndef g1(*a): return ('g1',) + a\ndef g2(*a): return ('g2',) + a\n"); err != nil {
+			if err := e.run("LOG = []\ndef g0(*a): return ('g0',) + a\ndef g1(*a): return ('g1',) + a\ndef g2(*a): return ('g2',) + a\n"); err != nil {
 				panic(err)
 			}
 			var v, r []string
 			for k, decl := range strings.Split(f[0], ";") {
 				name := fmt.Sprintf("K%d", k+1)
-				if err := e.run(c16ClassSrc(k+1, decl)); err != nil {
+				var err error
+				if api {
+					err = e.apiClass(k+1, decl)
+				} else {
+					err = e.run(c16ClassSrc(k+1, decl))
+				}
+				if err != nil {
 					v = append(v, name+"="+errClass(err))
 					return strings.Join(v, ";") + "|", "-"
 				}
@@ -198,7 +344,17 @@ func init() {
 			}
 			if f[1] != "-" {
 				for k, d := range f[1] {
-					if err := e.run(fmt.Sprintf("i%d = K%c()", k+1, d)); err != nil {
+					var err error
+					if api {
+						var o py.Object
+						o, err = py.Call(mod.Globals["K"+string(d)], nil, nil)
+						if err == nil {
+							mod.Globals[fmt.Sprintf("i%d", k+1)] = o
+						}
+					} else {
+						err = e.run(fmt.Sprintf("i%d = K%c()", k+1, d))
+					}
+					if err != nil {
 						return strings.Join(v, ";") + "|inst:" + errClass(err), "-"
 					}
 				}
@@ -212,7 +368,17 @@ func init() {
 					switch op[0] {
 					case 'g':
 						delete(mod.Globals, "_v")
-						if err := e.run("_v = " + obj + "." + rest); err != nil {
+						var err error
+						if api {
+							var o py.Object
+							o, err = py.GetAttrString(e.obj(obj), rest)
+							if err == nil {
+								mod.Globals["_v"] = o
+							}
+						} else {
+							err = e.run("_v = " + obj + "." + rest)
+						}
+						if err != nil {
 							ov = append(ov, errClass(err))
 							r = append(r, "-")
 						} else {
@@ -221,13 +387,25 @@ func init() {
 						}
 					case 's':
 						eq := strings.IndexByte(rest, '=')
-						if err := e.run(obj + "." + rest[:eq] + " = " + c16Val(rest[eq+1:])); err != nil {
+						var err error
+						if api {
+							_, err = py.SetAttrString(e.obj(obj), rest[:eq], e.apiVal(rest[eq+1:]))
+						} else {
+							err = e.run(obj + "." + rest[:eq] + " = " + c16Val(rest[eq+1:]))
+						}
+						if err != nil {
 							ov = append(ov, errClass(err))
 						} else {
 							ov = append(ov, "ok")
 						}
 					case 'd':
-						if err := e.run("del " + obj + "." + rest); err != nil {
+						var err error
+						if api {
+							err = py.DeleteAttrString(e.obj(obj), rest)
+						} else {
+							err = e.run("del " + obj + "." + rest)
+						}
+						if err != nil {
 							ov = append(ov, errClass(err))
 						} else {
 							ov = append(ov, "ok")
@@ -237,6 +415,32 @@ func init() {
 						if err := e.run("_v = isinstance(" + obj + ", " + c16ObjName(rest) + ")"); err != nil {
 							ov = append(ov, errClass(err))
 						} else if b, ok := mod.Globals["_v"].(py.Bool); ok && bool(b) {
+							ov = append(ov, "True")
+						} else {
+							ov = append(ov, "False")
+						}
+					case 'N':
+						names := []string{}
+						if rest != "-" {
+							for _, a := range strings.Split(rest, ",") {
+								names = append(names, c16ObjName(a))
+							}
+						}
+						tup := "(" + strings.Join(names, ", ")
+						if len(names) == 1 {
+							tup += ","
+						}
+						tup += ")"
+						delete(mod.Globals, "_v")
+						if err := e.run("_v = isinstance(" + obj + ", " + tup + ")"); err != nil {
+							ov = append(ov, errClass(err))
+						} else if b, ok := mod.Globals["_v"].(py.Bool); ok && bool(b) {
+							ov = append(ov, "True")
+						} else {
+							ov = append(ov, "False")
+						}
+					case 'U':
+						if e.obj(obj).(*py.Type).IsSubtype(e.obj(c16ObjName(rest)).(*py.Type)) {
 							ov = append(ov, "True")
 						} else {
 							ov = append(ov, "False")
@@ -260,7 +464,7 @@ func init() {
 					}
 				}
 			}
-			return strings.Join(v, ";") + "|" + strings.Join(ov, ";"), strings.Join(r, ";")
+			return strings.Join(v, ";") + "|" + strings.Join(ov, ";") + "|" + e.logStr(), strings.Join(r, ";")
 		}
 	}
 }
